@@ -6,6 +6,7 @@ statement."""
 from __future__ import annotations
 
 import ipaddress
+import dataclasses
 import itertools
 
 import someip.config as cfg
@@ -54,6 +55,15 @@ def entry(kind, d, ttl=3, last=None):
                              ttl=ttl, minver_or_counter=d[3] if last is None else last)
 
 
+def wire_forms(e):
+    """the same entry as it comes off the wire: with option indexes assigned (options in a shared array), and parsed
+    back from its bytes (options not resolved) - what an entry says does not depend on that"""
+    lst = []
+    assigned = e.assign_option_index(lst)
+    parsed, rest = hdr.SOMEIPSDEntry.parse(assigned.build(), len(lst))
+    return (("assigned", assigned), ("parsed", parsed))
+
+
 def check(ctx):
     sids, inst, maj, mino = domain(ctx)
     descs = list(itertools.product(sids, inst, maj, mino))
@@ -97,6 +107,24 @@ def check(ctx):
             outcomes[("offer", got_o)] = outcomes.get(("offer", got_o), 0) + 1
             if got_o != exp_o:
                 bad("matches_offer", "wrong-result", case, exp_o, got_o)
+            # the entry as it comes off the wire (option indexes instead of resolved options), with and without options
+            for opts in ((), (OPT_A,)):
+                eo = dataclasses.replace(entry(T.OfferService, b), options_1=opts)
+                ef = entry(T.FindService, b)
+                for form, (wo, wf) in zip(("assigned", "parsed"), zip((x[1] for x in wire_forms(eo)), (x[1] for x in wire_forms(ef)))):
+                    n += 2
+                    try:
+                        r_o = sa.matches_offer(wo)
+                        r_f = sa.matches_find(wf)
+                    except Exception as ex:  # noqa: BLE001
+                        bad("matches_offer", f"wire-form-raises-{type(ex).__name__}", dict(a=a, b=b, form=form, options=len(opts)),
+                            exp_o, f"{type(ex).__name__}: {ex}")
+                        continue
+                    if r_o != exp_o:
+                        bad("matches_offer", "wire-form-wrong-result", dict(a=a, b=b, form=form, options=len(opts)), exp_o, r_o)
+                    if r_f != ref_match(a, b, False, True):
+                        bad("matches_find", "wire-form-wrong-result", dict(a=a, b=b, form=form, options=len(opts)),
+                            ref_match(a, b, False, True), r_f)
             # service a vs find entry b (wildcard honoured on the request only)
             got_f = sa.matches_find(entry(T.FindService, b))
             exp_f = ref_match(a, b, False, True)
